@@ -225,6 +225,12 @@ func (p *proof) oracle() string {
 	if p.AuxIndex != expectedSlot(binary.LittleEndian.Uint32(s[m+40:]), p.ChainID, h) {
 		return "slot"
 	}
+	// Pinned behaviour of the unchanged tree (differential clause): the digits fabe6d6d occurring
+	// a second time in the script at ANY nibble offset — e.g. bytes 0f ab e6 d6 d0 after the
+	// commitment — also count against "exactly one marker"; such a proof is refused.
+	if strings.Count(hex.EncodeToString(s), "fabe6d6d") > 1 {
+		return "second-marker-nibble-shifted"
+	}
 	return ""
 }
 
@@ -673,6 +679,20 @@ func (w *worker) explore(c seedCfg, full bool) {
 	// nibble-shifted second marker (hex sees two, bytes see one)
 	w.withScript("markers/second-nibble-misaligned-after", seed, mk(pre, marker, want[:], size, nonce, scriptFromHex("1fabe6d6d1")))
 	w.withScript("markers/second-nibble-misaligned-before", seed, mk(scriptFromHex("1fabe6d6d1"), pre, marker, want[:], size, nonce, suf))
+	// a second marker at every nibble offset after the commitment (even = byte-aligned, odd =
+	// shifted by a nibble), with and without bytes after it
+	for o := 0; o <= 16; o++ {
+		tail := strings.Repeat("1", o) + "fabe6d6d"
+		if len(tail)%2 == 1 {
+			tail += "0"
+		}
+		cl := "markers/second-at-nibble-offset/even"
+		if o%2 == 1 {
+			cl = "markers/second-at-nibble-offset/odd"
+		}
+		w.withScript(cl, seed, mk(pre, marker, want[:], size, nonce, scriptFromHex(tail)))
+		w.withScript(cl+"+suffix", seed, mk(pre, marker, want[:], size, nonce, scriptFromHex(tail), []byte{0x22, 0x33}))
+	}
 	// marker not adjacent to the root
 	for gap := 1; gap <= 4; gap++ {
 		w.withScript("adjacency/byte-gap", seed, mk(pre, marker, bytes.Repeat([]byte{0x11}, gap), want[:], size, nonce, suf))
@@ -902,7 +922,7 @@ func main() {
 		samples = append(samples, map[string]interface{}{"seed": c, "block_hash": hex.EncodeToString(p.BlockHash[:]), "script": hex.EncodeToString(p.Ins[0].Script), "auxpow": hex.EncodeToString(b.Bytes())})
 	}
 	r.Assume = append(r.Assume,
-		"the statement is one-directional (accepted only if …): proofs the repository rejects although the byte-level statement holds (e.g. a second, nibble-shifted fabe6d6d in the hex form, the root's hex occurring earlier) are counted as 'stricter_than_statement', not alarmed; only seeds built exactly like GenerateAuxPow builds them must be accepted",
+		"differential clause pinned from the unchanged tree: a second occurrence of the digits fabe6d6d at any nibble offset of the script (e.g. bytes 0f ab e6 d6 d0) makes a proof unacceptable, like a second byte-aligned marker does", "the statement is one-directional (accepted only if …): proofs the repository rejects although the byte-level statement holds (e.g. the root's hex occurring earlier) are counted as 'stricter_than_statement', not alarmed; only seeds built exactly like GenerateAuxPow builds them must be accepted",
 		"indexes are enumerated within the wire range (uint32); the in-memory sentinel index -1 of GetMerkleRoot is not reachable through AuxPow.Deserialize on 64-bit platforms",
 		"a panic inside AuxPow.Check counts as 'not accepted' here; crash freedom is property C03 (sites are listed under panics_by_site)",
 		"fields of the parent header other than its merkle root and the AuxPow.ParentHash field are not part of the commitment checked by AuxPow.Check (the parent header is bound by CheckProofOfWork, C09) — their mutation is expected to be neutral")
@@ -910,7 +930,7 @@ func main() {
 	r.Finish(evid.Coverage{
 		"evaluations":                total.evals + total.reuseCases,
 		"distinct_nontrivial":        nontrivial,
-		"rule":                       fmt.Sprintf("%d valid seeds (aux branch length 0..5 x nonces x chain ids x parent branch shapes x script prefix/suffix) built like GenerateAuxPow builds them; per seed: every bit of the block hash, chain id / aux index / parent index deviations, every byte of every branch element and of the parent merkle root x 16 xor values (on the heavy seeds: no script prefix, main chain id; x 2 values on the others), branch length changes, wire-level index values {0x7fffffff,0x80000000,0xfffffffe,0xffffffff} for both index fields x parent root {re-committed, all-zero, kept} x 3 coinbases x 3 scripts, coinbase field changes with and without re-commitment, every script byte x 16 xor values with re-commitment, size and nonce alphabets, every truncation, two-marker / non-adjacent / marker-less / wrong-root layouts; on the placement seeds the commitment at every nibble offset 0..26 of the hex script in 3-4 tail layouts. Every proof is serialized and deserialized by the repository before AuxPow.Check. Object reuse: per seed, an AuxPow value is decoded and checked, then turned into each of ~18 other proofs (other block, switched script, changed coinbase with/without re-commitment, changed roots/branches) field by field in place or by Deserialize into the same value, in both orders, and checked again; the verdict must equal that of a fresh value decoded from its re-serialisation and the byte-level statement. Duplicates (same wire bytes, hash, chain id) are evaluated once. distinct_nontrivial = distinct proofs that pass the parent-merkle rule and so reach the marker/root/size/slot logic", len(cfgs)),
+		"rule":                       fmt.Sprintf("%d valid seeds (aux branch length 0..5 x nonces x chain ids x parent branch shapes x script prefix/suffix) built like GenerateAuxPow builds them; per seed: every bit of the block hash, chain id / aux index / parent index deviations, every byte of every branch element and of the parent merkle root x 16 xor values (on the heavy seeds: no script prefix, main chain id; x 2 values on the others), branch length changes, wire-level index values {0x7fffffff,0x80000000,0xfffffffe,0xffffffff} for both index fields x parent root {re-committed, all-zero, kept} x 3 coinbases x 3 scripts, coinbase field changes with and without re-commitment, every script byte x 16 xor values with re-commitment, size and nonce alphabets, every truncation, two-marker layouts (incl. a second marker at every nibble offset 0..16 after the commitment) / non-adjacent / marker-less / wrong-root layouts; on the placement seeds the commitment at every nibble offset 0..26 of the hex script in 3-4 tail layouts. Every proof is serialized and deserialized by the repository before AuxPow.Check. Object reuse: per seed, an AuxPow value is decoded and checked, then turned into each of ~18 other proofs (other block, switched script, changed coinbase with/without re-commitment, changed roots/branches) field by field in place or by Deserialize into the same value, in both orders, and checked again; the verdict must equal that of a fresh value decoded from its re-serialisation and the byte-level statement. Duplicates (same wire bytes, hash, chain id) are evaluated once. distinct_nontrivial = distinct proofs that pass the parent-merkle rule and so reach the marker/root/size/slot logic", len(cfgs)),
 		"exhaustive":                 true,
 		"seeds":                      len(cfgs),
 		"accepted":                   total.accepted,
